@@ -11,6 +11,7 @@
 //	NEW <full 0|1> <fixed 0|1> <quorum> <n>
 //	START <slot>
 //	DECIDED <height> <round> <kind> <k> <signer>*k <valid 0|1> <looks 0|1>
+//	DECIDEDWF ...                 the same message while the database refuses every write
 //	LOCAL <height> <k> <signer>*k
 //	RESTART
 //
@@ -53,7 +54,7 @@ import (
 
 var (
 	logger = zap.NewNop()
-	db     basedb.Database
+	db     *refusingDB
 	dbSeq  int
 	// the tree carries work/fix-C15.diff iff the controller has the highestSaved field
 	fixedTree = func() bool {
@@ -78,6 +79,48 @@ type op struct {
 	h, r    uint64
 	variant string // ok | badsig | badroot | badid | unknown | subq | dup
 	signers []uint64
+	refused bool // the database refuses every write while the message is processed
+}
+
+// refusingDB makes the one in-memory badger refuse writes on demand (Set / SetMany / Delete return an
+// error and store nothing); reads keep working.
+type refusingDB struct {
+	basedb.Database
+	refuse  bool
+	refused int
+}
+
+var errRefused = fmt.Errorf("injected write failure")
+
+func (d *refusingDB) Set(prefix, key, value []byte) error {
+	if d.refuse {
+		d.refused++
+		return errRefused
+	}
+	return d.Database.Set(prefix, key, value)
+}
+
+func (d *refusingDB) SetMany(prefix []byte, n int, next func(int) (basedb.Obj, error)) error {
+	if d.refuse {
+		d.refused++
+		return errRefused
+	}
+	return d.Database.SetMany(prefix, n, next)
+}
+
+func (d *refusingDB) Delete(prefix, key []byte) error {
+	if d.refuse {
+		d.refused++
+		return errRefused
+	}
+	return d.Database.Delete(prefix, key)
+}
+
+func (d *refusingDB) Using(rw basedb.ReadWriter) basedb.ReadWriter {
+	if rw == nil {
+		return d
+	}
+	return rw
 }
 
 // ---- the world: one validator, one attester runner, one store ----------------------------------------
@@ -114,6 +157,7 @@ type world struct {
 	life       map[uint64]string // heights started or learned decided in this process life
 	loaded     certObs           // what the process loaded when it started
 	validRound map[uint64]map[uint64]bool
+	unsaved    map[uint64]bool // heights whose decision was processed while the database refused writes
 }
 
 func keySet(n int) *testingutils.TestKeySet {
@@ -134,7 +178,7 @@ func newWorld(out *hx.Out, full bool, n int) *world {
 		if err != nil {
 			panic(err)
 		}
-		db = d
+		db = &refusingDB{Database: d}
 	}
 	dbSeq++
 	w := &world{out: out, full: full, n: n, ks: keySet(n)}
@@ -143,6 +187,7 @@ func newWorld(out *hx.Out, full bool, n int) *world {
 	// a fresh key space of the one in-memory badger per case
 	w.store = ibftstorage.New(db, fmt.Sprintf("c%d-%s", dbSeq, spectypes.BNRoleAttester.String()))
 	w.validRound = map[uint64]map[uint64]bool{}
+	w.unsaved = map[uint64]bool{}
 	w.boot()
 	w.life = map[uint64]string{}
 	f, x := 0, 0
@@ -431,13 +476,22 @@ func (w *world) decided(o op) {
 	looks := controller.IsDecidedMsg(w.share, msg)
 	valid := looks && bytes.Equal(msg.Message.Identifier, w.id[:]) &&
 		controller.ValidateDecided(w.ctrl.GetConfig(), msg, w.share) == nil
-	w.out.Op("DECIDED", "%d %d %s %s %d %d", o.h, o.r, o.variant, ids(o.signers), b2i(valid), b2i(looks))
+	name := "DECIDED"
+	if o.refused {
+		name = "DECIDEDWF"
+	}
+	w.out.Op(name, "%d %d %s %s %d %d", o.h, o.r, o.variant, ids(o.signers), b2i(valid), b2i(looks))
 	w.out.Count("decided-" + o.variant)
+	if o.refused {
+		w.out.Count("decided-while-writes-refused")
+	}
 	before := w.highest()
 	heightBefore := uint64(w.ctrl.Height)
 	held := w.ctrl.StoredInstances.FindInstance(specqbft.Height(o.h)) != nil
 	recorded := w.historical(o.h) != "-"
+	db.refuse, db.refused = o.refused, 0
 	err := w.run.ProcessConsensus(logger, msg)
+	db.refuse = false
 	res := "dec-ok"
 	switch {
 	case err == nil && !valid:
@@ -460,8 +514,14 @@ func (w *world) decided(o op) {
 		w.validRound[o.h][o.r] = true
 	}
 	w.checkStore(before, "decided")
-	if valid {
+	if valid && o.refused {
+		w.unsaved[o.h] = true
+	}
+	if valid && !o.refused {
 		w.checkPersisted(o.h, heightBefore, held, recorded, "decided")
+	}
+	if o.refused && w.highest().String() != before.String() {
+		w.out.ViolF("c15c the store changed although every write was refused: %s -> %s", before, w.highest())
 	}
 	w.obs(res, w.historical(o.h))
 }
@@ -480,6 +540,10 @@ func (w *world) checkPersisted(h, heightBefore uint64, held, recorded bool, what
 		return
 	}
 	switch {
+	case w.unsaved[h]:
+		// outside the property's quantifier: the instance is already decided in memory, so an equal
+		// certificate is not written again
+		w.out.Note("height %d was decided while the database refused writes; not stored (%s); stored=%s", h, what, hi)
 	case h == 0:
 		w.out.Note("height-0 exception: height 0 decided (%s) but not stored; stored=%s", what, hi)
 	case w.full && !held && recorded:
@@ -667,6 +731,7 @@ func gen(out *hx.Out, seed uint64, n int) {
 					o.variant = "dup"
 					o.signers[len(o.signers)-1] = o.signers[0]
 				}
+				o.refused = r.Chance(1, 8)
 				w.apply(o)
 				if o.variant == "ok" && o.h > cur {
 					cur = o.h
@@ -782,9 +847,9 @@ func replay(out *hx.Out, path string) {
 		switch f[0] {
 		case "START":
 			w.start(u(f[1]))
-		case "DECIDED":
+		case "DECIDED", "DECIDEDWF":
 			s, _ := parseIDs(f[4:])
-			w.decided(op{kind: opDecided, h: u(f[1]), r: u(f[2]), variant: f[3], signers: s})
+			w.decided(op{kind: opDecided, h: u(f[1]), r: u(f[2]), variant: f[3], signers: s, refused: f[0] == "DECIDEDWF"})
 		case "LOCAL":
 			s, _ := parseIDs(f[2:])
 			w.local(u(f[1]), s)
